@@ -1,6 +1,6 @@
 import Driver.Common
 import TransportVerif.Model.ReadDeadline
-/- driver component `rdl`: case <id> <kind>; ops: dl <T|zero> | arr | read | adv <dt>
+/- driver component `rdl`: case <id> <kind>; ops: dl <T|zero> | arr | read | adv <dt> | close
    out: - | blocked | r=data3 | r=timeout ; spec (C10): a timeout only if a non-zero deadline is in force and has
    passed; a read blocked past its deadline is released; with a passed deadline every read times out. -/
 namespace Driver.RDL
@@ -12,9 +12,10 @@ structure St where
   now : Int
   queued : Nat
   blocked : Bool
+  closed : Bool := false
 
 def resStr : Res → String
-  | .none => "-" | .blocked => "blocked" | .data => "r=data3" | .timeout => "r=timeout"
+  | .none => "-" | .blocked => "blocked" | .data => "r=data3" | .timeout => "r=timeout" | .eof => "r=eof"
 
 def passed (s : St) : Bool := match s.dl with | some t => decide (t ≤ s.now) | none => false
 
@@ -32,21 +33,26 @@ def comp : Component where
           if s1.blocked then (s1, "blocked")
           else if passed s1 then (s1, "r=timeout")
           else if s1.queued > 0 then ({ s1 with queued := s1.queued - 1 }, "r=data3")
+          else if s1.closed then (s1, "r=eof")
           else ({ s1 with blocked := true }, "blocked")
         | .arrive =>
-          if s1.blocked then ({ s1 with blocked := false }, "r=data3") else ({ s1 with queued := s1.queued + 1 }, "-")
+          if s1.closed then (s1, "-")
+          else if s1.blocked then ({ s1 with blocked := false }, "r=data3") else ({ s1 with queued := s1.queued + 1 }, "-")
+        | .close =>
+          if s1.blocked then ({ s1 with blocked := false, closed := true }, "r=eof") else ({ s1 with closed := true }, "-")
         | _ =>
           if s1.blocked ∧ passed s1 then ({ s1 with blocked := false }, "r=timeout")
           else (s1, if s1.blocked then "blocked" else "-")
-      ({ s2 with c := c' }, line4 (resStr r) "-" spec (tags ++ (match r with | .timeout => "timeout " | .data => "data " | .blocked => "blocked " | .none => "")))
+      ({ s2 with c := c' }, line4 (resStr r) "-" spec (tags ++ (match r with | .timeout => "timeout " | .data => "data " | .blocked => "blocked " | .eof => "eof " | .none => "")))
     -- `dlb` is SetDeadline: for the read side it is SetReadDeadline
     let f := match f with | "dlb" :: rest => "dl" :: rest | _ => f
     match f with
     | ["dl", "zero"] => fin (.setDeadline none) { s with dl := none } ("dl-zero " ++ (if passed s then "reset-after-expiry " else ""))
     | ["dl", t] => fin (.setDeadline (some (int! t))) { s with dl := some (int! t) }
         ((if int! t ≤ s.now then "dl-past " else "dl-future ") ++ (if passed s then "reset-after-expiry " else "") ++ (if s.blocked then "dl-while-blocked " else ""))
+    | ["close"] => fin .close s ("close " ++ (if s.blocked then "close-wakes-reader " else "") ++ (if passed s then "close-after-expiry " else "") ++ (if s.queued > 0 then "close-with-data " else ""))
     | ["arr"] => fin .arrive s "arrive "
-    | ["read"] => fin .read s ("read " ++ (if passed s ∧ s.queued > 0 then "read-expired-with-data " else "") ++ (if passed s then "read-after-expiry " else ""))
+    | ["read"] => fin .read s ("read " ++ (if s.closed then "read-closed " else "") ++ (if s.closed ∧ passed s ∧ s.queued > 0 then "read-closed-expired-with-data " else "") ++ (if passed s ∧ s.queued > 0 then "read-expired-with-data " else "") ++ (if passed s then "read-after-expiry " else ""))
     | ["adv", dt] => fin (.advance (nat! dt)) { s with now := s.now + nat! dt }
         ("adv " ++ (match s.dl with | some t => (if s.now < t ∧ t ≤ s.now + nat! dt then (if s.blocked then "expires-while-blocked " else "expires-unobserved ") else "") | none => ""))
     | _ => (s, "bad-op")
